@@ -183,6 +183,7 @@ var (
 	steps       int64 // total yields executed in this run
 	switches    int64
 	digest      uint64
+	odigest     uint64
 	strategy    int32
 	gapMean     int32
 	gapLeft     int64
@@ -242,10 +243,19 @@ func mix(v uint64) {
 	digest *= 1099511628211
 }
 
-// Mix folds a harness-level value (e.g. an outcome hash) into the run digest.
+// Mix folds a harness-level value (an outcome hash) into the run's event digest and into its
+// outcome digest.  The outcome digest holds outcomes only and is commutative: it must not
+// depend on how the run was scheduled (in which order the tasks' operations completed) or on
+// which internal paths the library took.
 //
 //go:norace
-func Mix(v uint64) { mix(v) }
+func Mix(v uint64) {
+	mix(v)
+	x := v + 0x9E3779B97F4A7C15
+	x = (x ^ (x >> 30)) * 0xBF58476D1CE4E5B9
+	x = (x ^ (x >> 27)) * 0x94D049BB133111EB
+	odigest += x ^ (x >> 31)
+}
 
 //go:norace
 func next64() uint64 {
@@ -357,7 +367,7 @@ type RunConfig struct {
 // Stats is what a run measured.
 type Stats struct {
 	Steps, Switches                               int64
-	Digest, SwitchSig                             uint64
+	Digest, SwitchSig, ODigest                    uint64
 	Blocked, Handover, PoolGet, PoolFresh         int64
 	PoolReuse, PoolDrop, NestedGet                int64
 	MapNonAsc, MapCalls, Injected, InjectedInExec int64
@@ -382,6 +392,7 @@ func GetMode() int { return int(mode) }
 //go:norace
 func ResetRunStats() {
 	steps, switches, digest, switchSig = 0, 0, 14695981039346656037, 0
+	odigest = 14695981039346656037
 	statBlocked, statHandover, statPoolGet, statPoolFresh = 0, 0, 0, 0
 	statPoolReuse, statPoolDrop, statNestedGet = 0, 0, 0
 	statMapNonAsc, statMapCalls, statInjected, statInjectedGen = 0, 0, 0, 0
@@ -474,6 +485,7 @@ func Snapshot() Stats { return snapshot() }
 func snapshot() Stats {
 	var s Stats
 	s.Steps, s.Switches, s.Digest, s.SwitchSig = steps, switches, digest, switchSig
+	s.ODigest = odigest
 	s.Blocked, s.Handover, s.PoolGet, s.PoolFresh = statBlocked, statHandover, statPoolGet, statPoolFresh
 	s.PoolReuse, s.PoolDrop, s.NestedGet = statPoolReuse, statPoolDrop, statNestedGet
 	s.MapNonAsc, s.MapCalls, s.Injected, s.InjectedInExec = statMapNonAsc, statMapCalls, statInjected, statInjectedGen
